@@ -90,8 +90,33 @@ class ABT:
 
     def is_seq_load(self, e):
         e = e.strip()
-        return e.kind == 'call' and e.op.startswith(ATOMIC_PREFIX) and e.op.endswith('::load') and \
-            is_param_field(e.args[0], self.seq)
+        if e.kind == 'call' and e.op.startswith(ATOMIC_PREFIX) and e.op.endswith('::load') and is_param_field(e.args[0], self.seq):
+            return True
+        return self.wrapped_seq_load(e) is not None
+
+    def wrapped_seq_load(self, e):
+        """e is a call to a local accessor whose whole body is `self.<seq>.load(ORDER)`: returns (fn, ordering)"""
+        e = e.strip()
+        if e.kind != 'call':
+            return None
+        f = self.prog.fns.get(e.info.get('key'))
+        if f is None or f.argc != 1 or not e.args or e.args[0].strip().kind != 'param':
+            return None
+        r = f.local_expr(0, []).strip()
+        if r.kind == 'call' and r.op.startswith(ATOMIC_PREFIX) and r.op.endswith('::load') and is_param_field(r.args[0], self.seq):
+            o = r.args[-1].strip()
+            return f, (o.info.get('variant') if o.kind == 'agg' else None)
+        return None
+
+    def seq_load_ordering(self, e):
+        e = e.strip()
+        w = self.wrapped_seq_load(e)
+        if w is not None:
+            return w[1]
+        if e.kind == 'call' and e.args:
+            o = e.args[-1].strip()
+            return o.info.get('variant') if o.kind == 'agg' else None
+        return None
 
     def slot_index_expr(self, e):
         """for &self.snapshots[idx] return idx expr else None"""
